@@ -125,45 +125,45 @@ macro_rules! ni_dispatch {
         }
     };
 }
-// @ob name=d_ni256_n01 props=C02,C04,C15,C20 kind=bounded bound="n = 1 blocks (PAR = 9), tagged block contents, symbolic keys" fn=aes::ni::Aes256BackEnc::encrypt_par_blocks,aes::ni::Aes256BackEnc::encrypt_block,aes::ni::encdec::encrypt_par,aes::ni::encdec::decrypt_par,aes::ni::encdec::load,aes::ni::encdec::store timeout=1800
+// @ob name=d_ni256_n01 props=C02,C03,C04,C15,C20 kind=bounded bound="n = 1 blocks (PAR = 9), tagged block contents, symbolic keys" fn=aes::ni::Aes256BackEnc::encrypt_par_blocks,aes::ni::Aes256BackEnc::encrypt_block,aes::ni::encdec::encrypt_par,aes::ni::encdec::decrypt_par,aes::ni::encdec::load,aes::ni::encdec::store timeout=1800
 ni_dispatch!(d_ni256_n01, Aes256Enc, Aes256BackEnc, Aes256Dec, Aes256BackDec, 15, 1, tagged::<1>(), any_keys::<15>());
-// @ob name=d_ni256_n02 props=C02,C04,C15,C20 kind=bounded tier=thorough bound="n = 2 blocks (PAR = 9), tagged block contents, symbolic keys" fn=aes::ni::Aes256BackEnc::encrypt_par_blocks,aes::ni::Aes256BackEnc::encrypt_block,aes::ni::encdec::encrypt_par,aes::ni::encdec::decrypt_par,aes::ni::encdec::load,aes::ni::encdec::store timeout=3600
+// @ob name=d_ni256_n02 props=C02,C03,C04,C15,C20 kind=bounded tier=thorough bound="n = 2 blocks (PAR = 9), tagged block contents, symbolic keys" fn=aes::ni::Aes256BackEnc::encrypt_par_blocks,aes::ni::Aes256BackEnc::encrypt_block,aes::ni::encdec::encrypt_par,aes::ni::encdec::decrypt_par,aes::ni::encdec::load,aes::ni::encdec::store timeout=3600
 ni_dispatch!(d_ni256_n02, Aes256Enc, Aes256BackEnc, Aes256Dec, Aes256BackDec, 15, 2, tagged::<2>(), any_keys::<15>());
-// @ob name=d_ni256_n03 props=C02,C04,C15,C20 kind=bounded tier=thorough bound="n = 3 blocks (PAR = 9), tagged block contents, symbolic keys" fn=aes::ni::Aes256BackEnc::encrypt_par_blocks,aes::ni::Aes256BackEnc::encrypt_block,aes::ni::encdec::encrypt_par,aes::ni::encdec::decrypt_par,aes::ni::encdec::load,aes::ni::encdec::store timeout=3600
+// @ob name=d_ni256_n03 props=C02,C03,C04,C15,C20 kind=bounded tier=thorough bound="n = 3 blocks (PAR = 9), tagged block contents, symbolic keys" fn=aes::ni::Aes256BackEnc::encrypt_par_blocks,aes::ni::Aes256BackEnc::encrypt_block,aes::ni::encdec::encrypt_par,aes::ni::encdec::decrypt_par,aes::ni::encdec::load,aes::ni::encdec::store timeout=3600
 ni_dispatch!(d_ni256_n03, Aes256Enc, Aes256BackEnc, Aes256Dec, Aes256BackDec, 15, 3, tagged::<3>(), any_keys::<15>());
-// @ob name=d_ni256_n04 props=C02,C04,C15,C20 kind=bounded tier=thorough bound="n = 4 blocks (PAR = 9), tagged block contents, symbolic keys" fn=aes::ni::Aes256BackEnc::encrypt_par_blocks,aes::ni::Aes256BackEnc::encrypt_block,aes::ni::encdec::encrypt_par,aes::ni::encdec::decrypt_par,aes::ni::encdec::load,aes::ni::encdec::store timeout=3600
+// @ob name=d_ni256_n04 props=C02,C03,C04,C15,C20 kind=bounded tier=thorough bound="n = 4 blocks (PAR = 9), tagged block contents, symbolic keys" fn=aes::ni::Aes256BackEnc::encrypt_par_blocks,aes::ni::Aes256BackEnc::encrypt_block,aes::ni::encdec::encrypt_par,aes::ni::encdec::decrypt_par,aes::ni::encdec::load,aes::ni::encdec::store timeout=3600
 ni_dispatch!(d_ni256_n04, Aes256Enc, Aes256BackEnc, Aes256Dec, Aes256BackDec, 15, 4, tagged::<4>(), any_keys::<15>());
-// @ob name=d_ni256_n05 props=C02,C04,C15,C20 kind=bounded tier=thorough bound="n = 5 blocks (PAR = 9), tagged block contents, symbolic keys" fn=aes::ni::Aes256BackEnc::encrypt_par_blocks,aes::ni::Aes256BackEnc::encrypt_block,aes::ni::encdec::encrypt_par,aes::ni::encdec::decrypt_par,aes::ni::encdec::load,aes::ni::encdec::store timeout=3600
+// @ob name=d_ni256_n05 props=C02,C03,C04,C15,C20 kind=bounded tier=thorough bound="n = 5 blocks (PAR = 9), tagged block contents, symbolic keys" fn=aes::ni::Aes256BackEnc::encrypt_par_blocks,aes::ni::Aes256BackEnc::encrypt_block,aes::ni::encdec::encrypt_par,aes::ni::encdec::decrypt_par,aes::ni::encdec::load,aes::ni::encdec::store timeout=3600
 ni_dispatch!(d_ni256_n05, Aes256Enc, Aes256BackEnc, Aes256Dec, Aes256BackDec, 15, 5, tagged::<5>(), any_keys::<15>());
-// @ob name=d_ni256_n06 props=C02,C04,C15,C20 kind=bounded tier=thorough bound="n = 6 blocks (PAR = 9), tagged block contents, symbolic keys" fn=aes::ni::Aes256BackEnc::encrypt_par_blocks,aes::ni::Aes256BackEnc::encrypt_block,aes::ni::encdec::encrypt_par,aes::ni::encdec::decrypt_par,aes::ni::encdec::load,aes::ni::encdec::store timeout=3600
+// @ob name=d_ni256_n06 props=C02,C03,C04,C15,C20 kind=bounded tier=thorough bound="n = 6 blocks (PAR = 9), tagged block contents, symbolic keys" fn=aes::ni::Aes256BackEnc::encrypt_par_blocks,aes::ni::Aes256BackEnc::encrypt_block,aes::ni::encdec::encrypt_par,aes::ni::encdec::decrypt_par,aes::ni::encdec::load,aes::ni::encdec::store timeout=3600
 ni_dispatch!(d_ni256_n06, Aes256Enc, Aes256BackEnc, Aes256Dec, Aes256BackDec, 15, 6, tagged::<6>(), any_keys::<15>());
-// @ob name=d_ni256_n07 props=C02,C04,C15,C20 kind=bounded tier=thorough bound="n = 7 blocks (PAR = 9), tagged block contents, symbolic keys" fn=aes::ni::Aes256BackEnc::encrypt_par_blocks,aes::ni::Aes256BackEnc::encrypt_block,aes::ni::encdec::encrypt_par,aes::ni::encdec::decrypt_par,aes::ni::encdec::load,aes::ni::encdec::store timeout=3600
+// @ob name=d_ni256_n07 props=C02,C03,C04,C15,C20 kind=bounded tier=thorough bound="n = 7 blocks (PAR = 9), tagged block contents, symbolic keys" fn=aes::ni::Aes256BackEnc::encrypt_par_blocks,aes::ni::Aes256BackEnc::encrypt_block,aes::ni::encdec::encrypt_par,aes::ni::encdec::decrypt_par,aes::ni::encdec::load,aes::ni::encdec::store timeout=3600
 ni_dispatch!(d_ni256_n07, Aes256Enc, Aes256BackEnc, Aes256Dec, Aes256BackDec, 15, 7, tagged::<7>(), any_keys::<15>());
-// @ob name=d_ni256_n08 props=C02,C04,C15,C20 kind=bounded bound="n = 8 blocks (PAR = 9), tagged block contents, symbolic keys" fn=aes::ni::Aes256BackEnc::encrypt_par_blocks,aes::ni::Aes256BackEnc::encrypt_block,aes::ni::encdec::encrypt_par,aes::ni::encdec::decrypt_par,aes::ni::encdec::load,aes::ni::encdec::store timeout=1800
+// @ob name=d_ni256_n08 props=C02,C03,C04,C15,C20 kind=bounded bound="n = 8 blocks (PAR = 9), tagged block contents, symbolic keys" fn=aes::ni::Aes256BackEnc::encrypt_par_blocks,aes::ni::Aes256BackEnc::encrypt_block,aes::ni::encdec::encrypt_par,aes::ni::encdec::decrypt_par,aes::ni::encdec::load,aes::ni::encdec::store timeout=1800
 ni_dispatch!(d_ni256_n08, Aes256Enc, Aes256BackEnc, Aes256Dec, Aes256BackDec, 15, 8, tagged::<8>(), any_keys::<15>());
-// @ob name=d_ni256_n09 props=C02,C04,C15,C20 kind=bounded bound="n = 9 blocks (PAR = 9), tagged block contents, symbolic keys" fn=aes::ni::Aes256BackEnc::encrypt_par_blocks,aes::ni::Aes256BackEnc::encrypt_block,aes::ni::encdec::encrypt_par,aes::ni::encdec::decrypt_par,aes::ni::encdec::load,aes::ni::encdec::store timeout=1800
+// @ob name=d_ni256_n09 props=C02,C03,C04,C15,C20 kind=bounded bound="n = 9 blocks (PAR = 9), tagged block contents, symbolic keys" fn=aes::ni::Aes256BackEnc::encrypt_par_blocks,aes::ni::Aes256BackEnc::encrypt_block,aes::ni::encdec::encrypt_par,aes::ni::encdec::decrypt_par,aes::ni::encdec::load,aes::ni::encdec::store timeout=1800
 ni_dispatch!(d_ni256_n09, Aes256Enc, Aes256BackEnc, Aes256Dec, Aes256BackDec, 15, 9, tagged::<9>(), any_keys::<15>());
-// @ob name=d_ni256_n10 props=C02,C04,C15,C20 kind=bounded bound="n = 10 blocks (PAR = 9), tagged block contents and keys (concrete execution)" fn=aes::ni::Aes256BackEnc::encrypt_par_blocks,aes::ni::Aes256BackEnc::encrypt_block,aes::ni::encdec::encrypt_par,aes::ni::encdec::decrypt_par,aes::ni::encdec::load,aes::ni::encdec::store timeout=1800
+// @ob name=d_ni256_n10 props=C02,C03,C04,C15,C20 kind=bounded bound="n = 10 blocks (PAR = 9), tagged block contents and keys (concrete execution)" fn=aes::ni::Aes256BackEnc::encrypt_par_blocks,aes::ni::Aes256BackEnc::encrypt_block,aes::ni::encdec::encrypt_par,aes::ni::encdec::decrypt_par,aes::ni::encdec::load,aes::ni::encdec::store timeout=1800
 ni_dispatch!(d_ni256_n10, Aes256Enc, Aes256BackEnc, Aes256Dec, Aes256BackDec, 15, 10, tagged::<10>(), tagged_keys::<15>());
-// @ob name=d_ni256_n11 props=C02,C04,C15,C20 kind=bounded tier=thorough bound="n = 11 blocks (PAR = 9), tagged block contents and keys (concrete execution)" fn=aes::ni::Aes256BackEnc::encrypt_par_blocks,aes::ni::Aes256BackEnc::encrypt_block,aes::ni::encdec::encrypt_par,aes::ni::encdec::decrypt_par,aes::ni::encdec::load,aes::ni::encdec::store timeout=3600
+// @ob name=d_ni256_n11 props=C02,C03,C04,C15,C20 kind=bounded tier=thorough bound="n = 11 blocks (PAR = 9), tagged block contents and keys (concrete execution)" fn=aes::ni::Aes256BackEnc::encrypt_par_blocks,aes::ni::Aes256BackEnc::encrypt_block,aes::ni::encdec::encrypt_par,aes::ni::encdec::decrypt_par,aes::ni::encdec::load,aes::ni::encdec::store timeout=3600
 ni_dispatch!(d_ni256_n11, Aes256Enc, Aes256BackEnc, Aes256Dec, Aes256BackDec, 15, 11, tagged::<11>(), tagged_keys::<15>());
-// @ob name=d_ni256_n12 props=C02,C04,C15,C20 kind=bounded tier=thorough bound="n = 12 blocks (PAR = 9), tagged block contents and keys (concrete execution)" fn=aes::ni::Aes256BackEnc::encrypt_par_blocks,aes::ni::Aes256BackEnc::encrypt_block,aes::ni::encdec::encrypt_par,aes::ni::encdec::decrypt_par,aes::ni::encdec::load,aes::ni::encdec::store timeout=3600
+// @ob name=d_ni256_n12 props=C02,C03,C04,C15,C20 kind=bounded tier=thorough bound="n = 12 blocks (PAR = 9), tagged block contents and keys (concrete execution)" fn=aes::ni::Aes256BackEnc::encrypt_par_blocks,aes::ni::Aes256BackEnc::encrypt_block,aes::ni::encdec::encrypt_par,aes::ni::encdec::decrypt_par,aes::ni::encdec::load,aes::ni::encdec::store timeout=3600
 ni_dispatch!(d_ni256_n12, Aes256Enc, Aes256BackEnc, Aes256Dec, Aes256BackDec, 15, 12, tagged::<12>(), tagged_keys::<15>());
-// @ob name=d_ni256_n13 props=C02,C04,C15,C20 kind=bounded tier=thorough bound="n = 13 blocks (PAR = 9), tagged block contents and keys (concrete execution)" fn=aes::ni::Aes256BackEnc::encrypt_par_blocks,aes::ni::Aes256BackEnc::encrypt_block,aes::ni::encdec::encrypt_par,aes::ni::encdec::decrypt_par,aes::ni::encdec::load,aes::ni::encdec::store timeout=3600
+// @ob name=d_ni256_n13 props=C02,C03,C04,C15,C20 kind=bounded tier=thorough bound="n = 13 blocks (PAR = 9), tagged block contents and keys (concrete execution)" fn=aes::ni::Aes256BackEnc::encrypt_par_blocks,aes::ni::Aes256BackEnc::encrypt_block,aes::ni::encdec::encrypt_par,aes::ni::encdec::decrypt_par,aes::ni::encdec::load,aes::ni::encdec::store timeout=3600
 ni_dispatch!(d_ni256_n13, Aes256Enc, Aes256BackEnc, Aes256Dec, Aes256BackDec, 15, 13, tagged::<13>(), tagged_keys::<15>());
-// @ob name=d_ni256_n14 props=C02,C04,C15,C20 kind=bounded tier=thorough bound="n = 14 blocks (PAR = 9), tagged block contents and keys (concrete execution)" fn=aes::ni::Aes256BackEnc::encrypt_par_blocks,aes::ni::Aes256BackEnc::encrypt_block,aes::ni::encdec::encrypt_par,aes::ni::encdec::decrypt_par,aes::ni::encdec::load,aes::ni::encdec::store timeout=3600
+// @ob name=d_ni256_n14 props=C02,C03,C04,C15,C20 kind=bounded tier=thorough bound="n = 14 blocks (PAR = 9), tagged block contents and keys (concrete execution)" fn=aes::ni::Aes256BackEnc::encrypt_par_blocks,aes::ni::Aes256BackEnc::encrypt_block,aes::ni::encdec::encrypt_par,aes::ni::encdec::decrypt_par,aes::ni::encdec::load,aes::ni::encdec::store timeout=3600
 ni_dispatch!(d_ni256_n14, Aes256Enc, Aes256BackEnc, Aes256Dec, Aes256BackDec, 15, 14, tagged::<14>(), tagged_keys::<15>());
-// @ob name=d_ni256_n15 props=C02,C04,C15,C20 kind=bounded tier=thorough bound="n = 15 blocks (PAR = 9), tagged block contents and keys (concrete execution)" fn=aes::ni::Aes256BackEnc::encrypt_par_blocks,aes::ni::Aes256BackEnc::encrypt_block,aes::ni::encdec::encrypt_par,aes::ni::encdec::decrypt_par,aes::ni::encdec::load,aes::ni::encdec::store timeout=3600
+// @ob name=d_ni256_n15 props=C02,C03,C04,C15,C20 kind=bounded tier=thorough bound="n = 15 blocks (PAR = 9), tagged block contents and keys (concrete execution)" fn=aes::ni::Aes256BackEnc::encrypt_par_blocks,aes::ni::Aes256BackEnc::encrypt_block,aes::ni::encdec::encrypt_par,aes::ni::encdec::decrypt_par,aes::ni::encdec::load,aes::ni::encdec::store timeout=3600
 ni_dispatch!(d_ni256_n15, Aes256Enc, Aes256BackEnc, Aes256Dec, Aes256BackDec, 15, 15, tagged::<15>(), tagged_keys::<15>());
-// @ob name=d_ni256_n16 props=C02,C04,C15,C20 kind=bounded tier=thorough bound="n = 16 blocks (PAR = 9), tagged block contents and keys (concrete execution)" fn=aes::ni::Aes256BackEnc::encrypt_par_blocks,aes::ni::Aes256BackEnc::encrypt_block,aes::ni::encdec::encrypt_par,aes::ni::encdec::decrypt_par,aes::ni::encdec::load,aes::ni::encdec::store timeout=3600
+// @ob name=d_ni256_n16 props=C02,C03,C04,C15,C20 kind=bounded tier=thorough bound="n = 16 blocks (PAR = 9), tagged block contents and keys (concrete execution)" fn=aes::ni::Aes256BackEnc::encrypt_par_blocks,aes::ni::Aes256BackEnc::encrypt_block,aes::ni::encdec::encrypt_par,aes::ni::encdec::decrypt_par,aes::ni::encdec::load,aes::ni::encdec::store timeout=3600
 ni_dispatch!(d_ni256_n16, Aes256Enc, Aes256BackEnc, Aes256Dec, Aes256BackDec, 15, 16, tagged::<16>(), tagged_keys::<15>());
-// @ob name=d_ni256_n17 props=C02,C04,C15,C20 kind=bounded tier=thorough bound="n = 17 blocks (PAR = 9), tagged block contents and keys (concrete execution)" fn=aes::ni::Aes256BackEnc::encrypt_par_blocks,aes::ni::Aes256BackEnc::encrypt_block,aes::ni::encdec::encrypt_par,aes::ni::encdec::decrypt_par,aes::ni::encdec::load,aes::ni::encdec::store timeout=3600
+// @ob name=d_ni256_n17 props=C02,C03,C04,C15,C20 kind=bounded tier=thorough bound="n = 17 blocks (PAR = 9), tagged block contents and keys (concrete execution)" fn=aes::ni::Aes256BackEnc::encrypt_par_blocks,aes::ni::Aes256BackEnc::encrypt_block,aes::ni::encdec::encrypt_par,aes::ni::encdec::decrypt_par,aes::ni::encdec::load,aes::ni::encdec::store timeout=3600
 ni_dispatch!(d_ni256_n17, Aes256Enc, Aes256BackEnc, Aes256Dec, Aes256BackDec, 15, 17, tagged::<17>(), tagged_keys::<15>());
-// @ob name=d_ni256_n18 props=C02,C04,C15,C20 kind=bounded tier=thorough bound="n = 18 blocks (PAR = 9), tagged block contents and keys (concrete execution)" fn=aes::ni::Aes256BackEnc::encrypt_par_blocks,aes::ni::Aes256BackEnc::encrypt_block,aes::ni::encdec::encrypt_par,aes::ni::encdec::decrypt_par,aes::ni::encdec::load,aes::ni::encdec::store timeout=3600
+// @ob name=d_ni256_n18 props=C02,C03,C04,C15,C20 kind=bounded tier=thorough bound="n = 18 blocks (PAR = 9), tagged block contents and keys (concrete execution)" fn=aes::ni::Aes256BackEnc::encrypt_par_blocks,aes::ni::Aes256BackEnc::encrypt_block,aes::ni::encdec::encrypt_par,aes::ni::encdec::decrypt_par,aes::ni::encdec::load,aes::ni::encdec::store timeout=3600
 ni_dispatch!(d_ni256_n18, Aes256Enc, Aes256BackEnc, Aes256Dec, Aes256BackDec, 15, 18, tagged::<18>(), tagged_keys::<15>());
-// @ob name=d_ni256_n19 props=C02,C04,C15,C20 kind=bounded tier=thorough bound="n = 19 blocks (PAR = 9), tagged block contents and keys (concrete execution)" fn=aes::ni::Aes256BackEnc::encrypt_par_blocks,aes::ni::Aes256BackEnc::encrypt_block,aes::ni::encdec::encrypt_par,aes::ni::encdec::decrypt_par,aes::ni::encdec::load,aes::ni::encdec::store timeout=3600
+// @ob name=d_ni256_n19 props=C02,C03,C04,C15,C20 kind=bounded tier=thorough bound="n = 19 blocks (PAR = 9), tagged block contents and keys (concrete execution)" fn=aes::ni::Aes256BackEnc::encrypt_par_blocks,aes::ni::Aes256BackEnc::encrypt_block,aes::ni::encdec::encrypt_par,aes::ni::encdec::decrypt_par,aes::ni::encdec::load,aes::ni::encdec::store timeout=3600
 ni_dispatch!(d_ni256_n19, Aes256Enc, Aes256BackEnc, Aes256Dec, Aes256BackDec, 15, 19, tagged::<19>(), tagged_keys::<15>());
-// @ob name=d_ni256_sym01 props=C02,C04,C15,C20 kind=bounded tier=quick bound="n = 1 blocks (PAR = 9), symbolic contents and keys" fn=aes::ni::Aes256BackEnc::encrypt_par_blocks,aes::ni::encdec::encrypt_par,aes::ni::encdec::decrypt_par timeout=1800
+// @ob name=d_ni256_sym01 props=C02,C03,C04,C15,C20 kind=bounded tier=quick bound="n = 1 blocks (PAR = 9), symbolic contents and keys" fn=aes::ni::Aes256BackEnc::encrypt_par_blocks,aes::ni::encdec::encrypt_par,aes::ni::encdec::decrypt_par timeout=1800
 ni_dispatch!(d_ni256_sym01, Aes256Enc, Aes256BackEnc, Aes256Dec, Aes256BackDec, 15, 1, kani::any(), any_keys::<15>());
-// @ob name=d_ni256_sym09 props=C02,C04,C15,C20 kind=bounded tier=thorough bound="n = 9 blocks (PAR = 9), symbolic contents and keys" fn=aes::ni::Aes256BackEnc::encrypt_par_blocks,aes::ni::encdec::encrypt_par,aes::ni::encdec::decrypt_par timeout=1800
+// @ob name=d_ni256_sym09 props=C02,C03,C04,C15,C20 kind=bounded tier=thorough bound="n = 9 blocks (PAR = 9), symbolic contents and keys" fn=aes::ni::Aes256BackEnc::encrypt_par_blocks,aes::ni::encdec::encrypt_par,aes::ni::encdec::decrypt_par timeout=1800
 ni_dispatch!(d_ni256_sym09, Aes256Enc, Aes256BackEnc, Aes256Dec, Aes256BackDec, 15, 9, kani::any(), any_keys::<15>());
